@@ -1,6 +1,9 @@
 //! Correspondence harness: runs the real grenad implementation on generated inputs and
 //! writes inputs + observations as a case file for the extracted Coq model to replay.
 mod c14;
+mod c_file;
+mod c_hist;
+mod gen;
 mod util;
 
 use std::fs::File;
@@ -36,6 +39,16 @@ fn main() {
     let mut cases = Cases::new(BufWriter::new(File::create(&out).unwrap()));
     match scenario.as_str() {
         "C14" => c14::generate(&mut cases, &mut rng, thorough),
+        "file-c01" => { cases.prop = "C01".into(); c_file::generate(&mut cases, &mut rng, thorough, false) }
+        "file-c09" => { cases.prop = "C09".into(); c_file::generate(&mut cases, &mut rng, thorough, true) }
+        "file-c15" => { cases.prop = "C15".into(); c_file::generate_c15(&mut cases, &mut rng, thorough) }
+        "file-c18" => { cases.prop = "C18".into(); c_file::generate_c18(&mut cases, &mut rng, thorough) }
+        "hist-c02" => { cases.prop = "C02".into(); c_hist::generate(&mut cases, &mut rng, thorough, "C02") }
+        "hist-c03" => { cases.prop = "C03".into(); c_hist::generate(&mut cases, &mut rng, thorough, "C03") }
+        "hist-c16" => { cases.prop = "C16".into(); c_hist::generate(&mut cases, &mut rng, thorough, "C16") }
+        "hist-c10" => { cases.prop = "C10".into(); c_hist::generate(&mut cases, &mut rng, thorough, "C10") }
+        "iter-c04" => { cases.prop = "C04".into(); c_hist::generate_iter(&mut cases, &mut rng, thorough, "C04") }
+        "iter-c05" => { cases.prop = "C05".into(); c_hist::generate_iter(&mut cases, &mut rng, thorough, "C05") }
         "C14-sweep" => {
             match c14::sweep_all() {
                 None => println!("SWEEP ok 4294967296"),
